@@ -453,27 +453,8 @@ func runC12(ctx *core.Ctx) {
 				}
 			}
 		}
-		// who removes what, over everything reachable from Put
-		Put := p.Func("cache", "(*Cache).Put")
-		n := 0
-		for _, f := range reachableMod(p, []*ssa.Function{Put}, func(f *ssa.Function) bool {
-			return f.Pkg != nil && f.Pkg != p.Pkg("cache")
-		}) {
-			fg := graph(p, f)
-			opens := fg.Calls("os.OpenFile", "os.Create")
-			for _, c := range fg.Calls("os.Remove", "os.RemoveAll", "os.Rename") {
-				n++
-				ok := false
-				for _, o := range opens {
-					// the same name, and only once this function has itself opened it successfully:
-					// before that the file on disk is somebody else's (possibly a valid shared output)
-					if c.Call.Args[0] == o.Call.Args[0] && fg.Dominates(o, c) && ssax.KnownNil(fg.FactsAtInstr(c), ssax.Extracted(o, 1), true) {
-						ok = true
-					}
-				}
-				ctx.Check(ok, "P4", fmt.Sprintf("%s#remove%d", shortFn(f), n), c.Pos(), "%s reachable from Put removes only a file this function itself opened for writing (a removal of any other name can make an unrelated entry unreadable)", ssax.CalleeName(&c.Call))
-			}
-		}
+		whoRemoves(ctx, "P4")
+
 	}
 
 	// ---- P5
@@ -566,4 +547,31 @@ func sameLocal(a, b ssa.Value) bool {
 	}
 	x, y := la(a), la(b)
 	return x != nil && x == y
+}
+
+// whoRemoves: every os.Remove/Rename reachable from Put removes a name that the
+// same function has itself opened successfully before (C12.P4, also C11.R9).
+func whoRemoves(ctx *core.Ctx, rule string) {
+	p := ctx.P
+	// who removes what, over everything reachable from Put
+	Put := p.Func("cache", "(*Cache).Put")
+	n := 0
+	for _, f := range reachableMod(p, []*ssa.Function{Put}, func(f *ssa.Function) bool {
+		return f.Pkg != nil && f.Pkg != p.Pkg("cache")
+	}) {
+		fg := graph(p, f)
+		opens := fg.Calls("os.OpenFile", "os.Create")
+		for _, c := range fg.Calls("os.Remove", "os.RemoveAll", "os.Rename") {
+			n++
+			ok := false
+			for _, o := range opens {
+				// the same name, and only once this function has itself opened it successfully:
+				// before that the file on disk is somebody else's (possibly a valid shared output)
+				if c.Call.Args[0] == o.Call.Args[0] && fg.Dominates(o, c) && ssax.KnownNil(fg.FactsAtInstr(c), ssax.Extracted(o, 1), true) {
+					ok = true
+				}
+			}
+			ctx.Check(ok, rule, fmt.Sprintf("%s#remove%d", shortFn(f), n), c.Pos(), "%s reachable from Put removes only a file this function itself opened for writing (a removal of any other name can make an unrelated entry unreadable)", ssax.CalleeName(&c.Call))
+		}
+	}
 }
